@@ -132,6 +132,19 @@ theorem wr_BWF (s : St) (p : Ptr) {l : List Nat} (hl : Limbs l) (x : Nat) (hx : 
 theorem setSize_other (s : St) (x : Nat) (n : Int) {y : Nat} (h : y ≠ x) : (s.setSize x n).h y = s.h y := by
   simp [St.setSize, upd, h]
 
+/-- storing nothing changes nothing -/
+theorem wr_nil (s : St) (p : Ptr) (hlive : s.live p = true) (hfit : p.off ≤ (s.h p.id).buf.alloc) :
+    s.wr p [] = s := by
+  cases s with
+  | mk h ok =>
+    simp only [St.wr, Buf.write, List.length_nil, Nat.add_zero] at *
+    simp only [hfit, if_true, hlive, Bool.and_true]
+    congr 1
+    funext j
+    by_cases hj : j = p.id
+    · subst hj; simp [upd]
+    · simp [upd, hj]
+
 /-! ## pointers taken now -/
 
 @[simp] theorem live_PTR (s : St) (x : Nat) : s.live (s.PTR x) = true := by simp [St.live, St.PTR]
@@ -201,6 +214,28 @@ theorem MPZ_REALLOC_grown (s : St) (w n : Nat) (hw : OWF (s.h w)) : Grown s (MPZ
     simp [Mpz.grow, view, hn]
 
 /-! ## lists -/
+
+/-- a list with room for a + b elements splits into a prefix of a, a middle of b, and the rest -/
+theorem decomp3 (L : List Nat) (a b : Nat) (h : a + b ≤ L.length) :
+    ∃ A X R, L = A ++ X ++ R ∧ A.length = a ∧ X.length = b :=
+  ⟨L.take a, (L.drop a).take b, L.drop (a + b), by
+    rw [List.append_assoc, ← List.drop_drop, List.take_append_drop, List.take_append_drop],
+    by simp; omega, by simp; omega⟩
+
+/-- a store over the middle part of a block seen as prefix ++ middle ++ rest -/
+theorem wr_decomp (s : St) (p : Ptr) (l A X R : List Nat) (hL : (s.h p.id).buf.limbs = A ++ X ++ R)
+    (hlen : (s.h p.id).buf.limbs.length = (s.h p.id).buf.alloc) (hA : A.length = p.off) (hX : X.length = l.length) :
+    ((s.wr p l).h p.id).buf.limbs = A ++ l ++ R ∧
+    (s.wr p l).ok = (s.ok && s.live p) := by
+  have hfit : p.off + l.length ≤ (s.h p.id).buf.alloc := by
+    rw [← hlen, hL]; simp; omega
+  refine ⟨?_, by rw [wr_ok]; simp [hfit]⟩
+  rw [wr_limbs _ _ _ hfit, hL]
+  congr 1
+  · congr 1
+    rw [List.append_assoc]; exact List.take_left' hA
+  · exact List.drop_left' (by simp; omega)
+
 
 theorem take_normalize_length (l : List Nat) : l.take (normalize l).length = normalize l := by
   obtain ⟨k, hk⟩ := Mpz.normalize_spec l
